@@ -132,7 +132,8 @@ def check_full_report(
                     sold = shown["sold_pct"]
                     expected_sold = frac(cd.get_in_lot_sold_percentage(t))
                     if sold in (None, ""):
-                        if expected_sold != 0:
+                        # RP2 leaves the cell blank when the percentage is zero at its 13-decimal resolution
+                        if expected_sold >= Fraction(5, 10**14):
                             out.append(_v("fullreport.sold-percentage-blank", asset=asset, lot=t.unique_id, computed=expected_sold))
                     elif not close(sold, expected_sold, Fraction(1, 10**9)):
                         out.append(_v("fullreport.sold-percentage", asset=asset, lot=t.unique_id, shown=sold, computed=expected_sold))
